@@ -27,8 +27,10 @@ BASE_SCHEMA_OPTS = {"schema_path": "schema.graphql", "target_file_path": "out_sc
 
 class Case:
     def __init__(self, id, phase, documented, *, strategy="client", opts=None, drop=(), files=None, schema=None, queries=None,
-                 raw_config=None, config_name=None, no_config=False, env=None, note=""):
+                 raw_config=None, config_name=None, no_config=False, env=None, note="", ctx=""):
         self.id, self.phase, self.documented, self.strategy = id, phase, documented, strategy
+        self.ctx = ctx  # option context the violation is planted in ("" = the base options); the violation id stays the same
+        self.key = id + ctx + "@" + strategy
         self.opts, self.drop, self.files = opts or {}, set(drop), files or {}
         self.schema, self.queries, self.raw_config = schema, queries, raw_config
         self.config_name, self.no_config, self.env, self.note = config_name, no_config, env or {}, note
@@ -182,4 +184,30 @@ def catalogue():
         C.append(Case(f"invalid_schema:{k}", "schema_valid", "CodeGenException", schema=s,
                       queries="query Q { __typename }"))
         C.append(Case(f"invalid_schema:{k}", "schema_valid", "CodeGenException", schema=s, strategy="graphqlschema"))
+    C += _contexts(C)
     return C
+
+
+# Option contexts: every violation of the client strategy must be rejected in the same way whatever unrelated options are set.
+# (enable_custom_operations makes queries_path optional -- only *leaving it out* becomes valid; a path that is given and missing,
+# or a document that is invalid, is still rejected.)
+CONTEXTS = {"+custom_ops": {"enable_custom_operations": True},
+            "+sync_no_convert": {"async_client": False, "convert_to_snake_case": False, "include_all_inputs": False,
+                                 "include_all_enums": False}}
+
+
+def _contexts(cases):
+    out = []
+    for c in cases:
+        if c.strategy != "client" or c.raw_config is not None or c.no_config:
+            continue
+        for ctx, extra in CONTEXTS.items():
+            if any(k in c.opts for k in extra) or (ctx == "+sync_no_convert" and not (c.id.startswith("cfg:") or c.id.startswith("none:"))):
+                continue
+            phase, documented = c.phase, c.documented
+            if ctx == "+custom_ops" and c.id == "cfg:no_queries_path":
+                phase, documented = "-", None
+            n = Case(c.id, phase, documented, strategy=c.strategy, opts={**c.opts, **extra}, drop=c.drop, files=c.files, schema=c.schema,
+                     queries=c.queries, config_name=c.config_name, env=c.env, note=c.note, ctx=ctx)
+            out.append(n)
+    return out
